@@ -285,7 +285,7 @@ def main():
             crash = traceback.format_exc()
 
         # ---- step 5: decide
-        known = common.load_known()
+        known = common.load_known(prop)
         findings = [f for f in known.get('findings', []) if f.get('property') == prop]
         oracle_fail = [f for f in R.failures if f['kind'] == 'oracle']
         corr_fail = [f for f in R.failures if f['kind'] == 'correspondence']
